@@ -217,6 +217,15 @@ type listenerCase struct {
 	lclosed   bool
 	bad       bool
 	skipContent bool // real-client case: the stream oracle is the client's own writes
+	parked      map[*UDPSession]*listenerParked
+}
+
+// an application Close stopped between its two steps: `die` is closed, the goroutine waits
+// for s.mu (held by the harness, as the session's own update() may hold it) before it
+// flushes and calls Listener.removeSession
+type listenerParked struct {
+	in   *listenerInfo
+	done chan struct{}
 }
 
 func (c *listenerCase) key(i int) string { return c.addrs[i].String() }
@@ -234,7 +243,7 @@ func (c *listenerCase) violate(key, what string) {
 
 func newListenerCase(t *testing.T, id int, name string, lg *vlog, rep *vreport, rng *vrng, blockName string, ds, ps int, via bool, naddr int) *listenerCase {
 	c := &listenerCase{t: t, id: id, name: name, lg: lg, rep: rep, rng: rng, blockName: blockName, ds: ds, ps: ps, via: via,
-		info: map[*UDPSession]*listenerInfo{}, oobSent: map[string]bool{}}
+		info: map[*UDPSession]*listenerInfo{}, oobSent: map[string]bool{}, parked: map[*UDPSession]*listenerParked{}}
 	key := bytes.Repeat([]byte{0x5a}, 16)
 	key2 := bytes.Repeat([]byte{0xa5}, 16)
 	switch blockName {
@@ -348,7 +357,15 @@ type listenerSegT struct {
 
 // receive side of a session, read under its lock
 func listenerRecvState(s *UDPSession) (conv, rcvNxt uint32, segs []listenerSegT, fecN int, fecLast string, closed bool) {
-	s.mu.Lock()
+	return listenerRecvStateH(s, false)
+}
+
+// held: the harness itself holds s.mu (a Close parked between its two steps)
+func listenerRecvStateH(s *UDPSession, held bool) (conv, rcvNxt uint32, segs []listenerSegT, fecN int, fecLast string, closed bool) {
+	if !held {
+		s.mu.Lock()
+		defer s.mu.Unlock()
+	}
 	conv, rcvNxt = s.kcp.conv, s.kcp.rcv_nxt
 	s.kcp.rcv_queue.ForEach(func(g *segment) bool {
 		segs = append(segs, listenerSegT{g.sn, append([]byte(nil), g.data...)})
@@ -368,13 +385,12 @@ func listenerRecvState(s *UDPSession) (conv, rcvNxt uint32, segs []listenerSegT,
 			fecLast = fmt.Sprintf("%t:%d@%d", p.bit, p.seq, d.autoTune.tail)
 		}
 	}
-	s.mu.Unlock()
 	closed = s.isClosed()
 	return
 }
 
-func listenerDigest(s *UDPSession) string {
-	conv, nxt, segs, fn, fl, closed := listenerRecvState(s)
+func (c *listenerCase) digest(s *UDPSession) string {
+	conv, nxt, segs, fn, fl, closed := listenerRecvStateH(s, c.parked[s] != nil)
 	var sb strings.Builder
 	fmt.Fprintf(&sb, "c%d n%d f%d/%s x%t", conv, nxt, fn, fl, closed)
 	for _, g := range segs {
@@ -386,6 +402,10 @@ func listenerDigest(s *UDPSession) string {
 func listenerFecSamples(s *UDPSession) []string {
 	s.mu.Lock()
 	defer s.mu.Unlock()
+	return listenerFecSamplesH(s)
+}
+
+func listenerFecSamplesH(s *UDPSession) []string {
 	d := s.fecDecoder
 	if d == nil {
 		return nil
@@ -415,7 +435,7 @@ func (c *listenerCase) pre() listenerPre {
 		p.inTab[s] = true
 	}
 	for s := range c.info {
-		p.dig[s] = listenerDigest(s)
+		p.dig[s] = c.digest(s)
 	}
 	p.inPkts = atomic.LoadUint64(&DefaultSnmp.InPkts)
 	p.inBytes = atomic.LoadUint64(&DefaultSnmp.InBytes)
@@ -485,7 +505,7 @@ func (c *listenerCase) checkContent(in *listenerInfo, where string) {
 	if c.skipContent || in.tainted {
 		return
 	}
-	_, _, segs, _, _, _ := listenerRecvState(in.s)
+	_, _, segs, _, _, _ := listenerRecvStateH(in.s, c.parked[in.s] != nil)
 	c.rep.Monitors["content-oracle(every buffered segment = what its own peer wrote at that sn)"]++
 	for _, g := range segs {
 		if !bytes.Equal(g.data, listenerContent(in.key, in.conv, g.sn)) {
@@ -504,8 +524,18 @@ func (c *listenerCase) pkt(d listenerDg) {
 	c.rep.Distribution["dgram:"+d.class]++
 	a := c.addrs[d.from]
 	key := a.String()
+	if cur := c.snap().tab[key]; cur != nil && c.parked[cur] != nil && d.ok && (!d.readable || d.conv == cur.kcp.conv) {
+		// it would be dispatched to a session whose lock the harness holds: not deliverable
+		// before the parked Close goes on (the real kcpInput would simply wait for the lock)
+		c.calls--
+		c.rep.Steps--
+		c.rep.Distribution["dgram:"+d.class]--
+		c.rep.Distribution["skipped:for-parked-session"]++
+		return
+	}
 	p := c.pre()
 	cur := p.snap.tab[key]
+	curDead := cur != nil && cur.isClosed()
 	ph := "-"
 	okf := 0
 	if d.ok {
@@ -532,7 +562,7 @@ func (c *listenerCase) pkt(d listenerDg) {
 	dPassive := atomic.LoadUint64(&DefaultSnmp.PassiveOpens) - p.passive
 	var changed []int
 	for s, in := range c.info {
-		if old, ok := p.dig[s]; ok && old != listenerDigest(s) {
+		if old, ok := p.dig[s]; ok && old != c.digest(s) {
 			changed = append(changed, in.id)
 		}
 	}
@@ -554,7 +584,7 @@ func (c *listenerCase) pkt(d listenerDg) {
 		if in.key == key || in == fresh {
 			continue
 		}
-		if p.dig[s] != listenerDigest(s) || p.inTab[s] != (q.tab[in.key] == s) {
+		if p.dig[s] != c.digest(s) || p.inTab[s] != (q.tab[in.key] == s) {
 			c.violate("listener-cross-session-effect", fmt.Sprintf("a datagram from %s (class %s) changed session %d of address %s", key, d.class, in.id, in.key))
 			return
 		}
@@ -631,23 +661,30 @@ func (c *listenerCase) pkt(d listenerDg) {
 	}
 	if cur != nil {
 		in := c.info[cur]
-		if wantGone {
+		if wantGone && curDead && !room {
+			// its Close is under way and nothing replaces it: the entry stays until that
+			// Close reaches removeSession
+			if q.tab[key] != cur {
+				c.violate("listener-cross-session-effect", fmt.Sprintf("datagram conv %d sn 0 from %s with a full backlog removed the closing session", d.conv, key))
+				return
+			}
+		} else if wantGone {
 			in.replaced = true
 			if q.tab[key] == cur || !cur.isClosed() {
 				c.violate("listener-conv-merged", fmt.Sprintf("datagram conv %d sn 0 from %s: the session of conversation %d was not closed and removed", d.conv, key, cur.kcp.conv))
 				return
 			}
-			if p.dig[cur] != strings.Replace(listenerDigest(cur), "xtrue", "xfalse", 1) {
+			if listenerNoX(p.dig[cur]) != listenerNoX(c.digest(cur)) {
 				c.violate("listener-conv-merged", fmt.Sprintf("the first datagram of conversation %d changed the receive state of the closed session of conversation %d", d.conv, cur.kcp.conv))
 				return
 			}
-		} else if q.tab[key] != cur || cur.isClosed() {
+		} else if q.tab[key] != cur || cur.isClosed() != curDead {
 			c.violate("listener-cross-session-effect", fmt.Sprintf("datagram %s conv %d sn %d from %s removed or closed the live session (conv %d) of that address", d.class, d.conv, d.sn, key, cur.kcp.conv))
 			return
 		}
 		// a datagram of ANOTHER conversation never reaches the stream of this one
 		c.rep.Monitors["different-conv-never-merged(receive state of the old session unchanged)"]++
-		if d.ok && d.readable && d.conv != cur.kcp.conv && p.dig[cur] != strings.Replace(listenerDigest(cur), "xtrue", "xfalse", 1) {
+		if d.ok && d.readable && d.conv != cur.kcp.conv && listenerNoX(p.dig[cur]) != listenerNoX(c.digest(cur)) {
 			c.violate("listener-conv-merged", fmt.Sprintf("datagram of conversation %d (sn %d) changed the receive state of the session of conversation %d at %s", d.conv, d.sn, cur.kcp.conv, key))
 			return
 		}
@@ -734,7 +771,7 @@ func (c *listenerCase) accept() {
 	q := c.snap()
 	c.lg.printf("R %s acc=%d:%d\n", c.stateLine(q), in.addrIdx, in.id)
 	for s2 := range c.info {
-		if p.dig[s2] != listenerDigest(s2) || p.inTab[s2] != (q.tab[c.info[s2].key] == s2) {
+		if p.dig[s2] != c.digest(s2) || p.inTab[s2] != (q.tab[c.info[s2].key] == s2) {
 			c.violate("listener-cross-session-effect", fmt.Sprintf("Accept changed session %d", c.info[s2].id))
 			return
 		}
@@ -743,7 +780,7 @@ func (c *listenerCase) accept() {
 
 // server-side Close of a session (any session the harness knows, accepted or not)
 func (c *listenerCase) closeSess(in *listenerInfo) {
-	if c.bad {
+	if c.bad || c.parked[in.s] != nil {
 		return
 	}
 	c.calls++
@@ -761,8 +798,88 @@ func (c *listenerCase) closeSess(in *listenerInfo) {
 		if s2 == in.s {
 			continue
 		}
-		if p.dig[s2] != listenerDigest(s2) || p.inTab[s2] != (q.tab[o.key] == s2) {
+		if p.dig[s2] != c.digest(s2) || p.inTab[s2] != (q.tab[o.key] == s2) {
 			c.violate("listener-cross-session-effect", fmt.Sprintf("Close of session %d (addr %s conv %d) changed session %d (addr %s conv %d)", in.id, in.key, in.conv, o.id, o.key, o.conv))
+			return
+		}
+	}
+	if q.tab[in.key] == in.s {
+		c.violate("listener-cross-session-effect", fmt.Sprintf("closed session %d is still in the table", in.id))
+	}
+}
+
+// step 1 of an application Close: `die` closed, the rest parked behind s.mu
+func (c *listenerCase) closeBegin(in *listenerInfo) {
+	if c.bad || c.parked[in.s] != nil || in.s.isClosed() {
+		return
+	}
+	c.calls++
+	c.rep.Steps++
+	c.rep.Distribution["op:close-begin(parked before removeSession)"]++
+	p := c.pre()
+	c.trace = append(c.trace, fmt.Sprintf("XB %d", in.id))
+	c.lg.printf("XB %d\n", in.id)
+	in.s.mu.Lock()
+	pk := &listenerParked{in: in, done: make(chan struct{})}
+	c.parked[in.s] = pk
+	go func() { in.s.Close(); close(pk.done) }()
+	for i := 0; i < 20000 && !in.s.isClosed(); i++ {
+		time.Sleep(100 * time.Microsecond)
+	}
+	if !in.s.isClosed() {
+		c.violate("listener-harness", "a parked Close did not close die within 2 s")
+		return
+	}
+	in.closedByApp = true
+	q := c.snap()
+	c.lg.printf("R %s\n", c.stateLine(q))
+	for s2, o := range c.info {
+		if s2 == in.s {
+			continue
+		}
+		if p.dig[s2] != c.digest(s2) || p.inTab[s2] != (q.tab[o.key] == s2) {
+			c.violate("listener-cross-session-effect", fmt.Sprintf("the first step of Close of session %d changed session %d", in.id, o.id))
+			return
+		}
+	}
+	if p.inTab[in.s] != (q.tab[in.key] == in.s) {
+		c.violate("listener-cross-session-effect", "the first step of Close changed the table")
+	}
+}
+
+// step 2: the parked Close goes on - flush, Listener.removeSession
+func (c *listenerCase) closeEnd(in *listenerInfo) {
+	pk := c.parked[in.s]
+	if pk == nil {
+		return
+	}
+	c.calls++
+	c.rep.Steps++
+	c.rep.Distribution["op:close-end(removeSession)"]++
+	p := c.pre()
+	c.trace = append(c.trace, fmt.Sprintf("XE %d", in.id))
+	c.lg.printf("XE %d\n", in.id)
+	delete(c.parked, in.s)
+	in.s.mu.Unlock()
+	select {
+	case <-pk.done:
+	case <-time.After(20 * time.Second):
+		c.violate("listener-harness", "a released Close did not return within 20 s")
+		return
+	}
+	q := c.snap()
+	c.lg.printf("R %s\n", c.stateLine(q))
+	c.rep.Monitors["close-removes-only-itself(a session that replaced it keeps its table entry)"]++
+	for s2, o := range c.info {
+		if s2 == in.s {
+			continue
+		}
+		if p.inTab[s2] != (q.tab[o.key] == s2) {
+			c.violate("listener-close-race-evicts-successor", fmt.Sprintf("Close of session %d (addr %s conv %d), completing late, changed the table entry of session %d (addr %s conv %d)", in.id, in.key, in.conv, o.id, o.key, o.conv))
+			return
+		}
+		if p.dig[s2] != c.digest(s2) {
+			c.violate("listener-cross-session-effect", fmt.Sprintf("Close of session %d changed session %d", in.id, o.id))
 			return
 		}
 	}
@@ -807,6 +924,16 @@ func listenerDrain(s *UDPSession) [][]byte {
 
 func (c *listenerCase) finish() {
 	defer c.teardown()
+	if !c.bad {
+		var pk []*listenerInfo
+		for _, k := range c.parked {
+			pk = append(pk, k.in)
+		}
+		sort.Slice(pk, func(i, j int) bool { return pk[i].id < pk[j].id })
+		for _, in := range pk {
+			c.closeEnd(in)
+		}
+	}
 	if c.bad {
 		c.lg.printf("E abort\n")
 		return
@@ -894,6 +1021,11 @@ func (c *listenerCase) finish() {
 	c.rep.Distribution["sessions-created"] += len(c.byID)
 }
 
+// a digest without its closed flag
+func listenerNoX(d string) string {
+	return strings.Replace(strings.Replace(d, " xtrue", "", 1), " xfalse", "", 1)
+}
+
 func listenerJoin(xs []string) string {
 	if len(xs) == 0 {
 		return "-"
@@ -902,6 +1034,11 @@ func listenerJoin(xs []string) string {
 }
 
 func (c *listenerCase) teardown() {
+	for s, k := range c.parked {
+		delete(c.parked, s)
+		s.mu.Unlock()
+		<-k.done
+	}
 	for s := range c.info {
 		s.Close()
 	}
@@ -1103,14 +1240,33 @@ func listenerRandomCase(t *testing.T, id int, lg *vlog, rep *vreport, rng *vrng,
 		case r < 94:
 			c.accept()
 		case r < 99: // server-side close of a live session (boundary B9: the peer is then "new")
-			var live []*listenerInfo
+			var live, parked []*listenerInfo
 			q := c.snap()
 			for _, in := range c.byID {
-				if q.tab[in.key] == in.s && in.accepted {
+				if q.tab[in.key] == in.s && in.accepted && c.parked[in.s] == nil && !in.s.isClosed() {
 					live = append(live, in)
 				}
+				if c.parked[in.s] != nil {
+					parked = append(parked, in)
+				}
 			}
-			if len(live) > 0 {
+			switch {
+			case len(parked) > 0 && rng.chance(40):
+				c.closeEnd(parked[rng.intn(len(parked))])
+			case len(live) > 0 && rng.chance(50): // Close in two steps, other events in between
+				in := live[rng.intn(len(live))]
+				c.closeBegin(in)
+				if rng.chance(60) { // the peer reconnects while the Close is parked
+					for _, pp := range peers {
+						if c.key(pp.idx) == in.key {
+							pp.old = append(pp.old, pp.conv)
+							pp.conv = 3000 + uint32(rng.intn(1000))
+							pp.nextSn[pp.conv] = 1
+							c.sendAll(c.push(pp, pp.conv, 0, false))
+						}
+					}
+				}
+			case len(live) > 0:
 				c.closeSess(live[rng.intn(len(live))])
 			}
 		default:
@@ -1152,7 +1308,7 @@ func listenerBacklogCase(t *testing.T, id int, lg *vlog, rep *vreport, rng *vrng
 
 // every order of up to `depth` events on one address, next to a bystander
 func listenerOrdersCases(t *testing.T, id *int, lg *vlog, rep *vreport, rng *vrng, depth int) {
-	letters := []string{"c1.0", "c1.1", "c2.0", "c2.1", "oob1", "oob2", "par", "ack2.0", "close", "accept"}
+	letters := []string{"c1.0", "c1.1", "c2.0", "c2.1", "oob1", "oob2", "par", "ack2.0", "close", "accept", "closeB", "closeE"}
 	idx := make([]int, depth)
 	for {
 		*id++
@@ -1195,6 +1351,14 @@ func listenerOrdersCases(t *testing.T, id *int, lg *vlog, rep *vreport, rng *vrn
 				}
 			case "accept":
 				c.accept()
+			case "closeB":
+				if s := c.snap().tab[c.key(A)]; s != nil {
+					c.closeBegin(c.info[s])
+				}
+			case "closeE":
+				for _, k := range c.parked {
+					c.closeEnd(k.in)
+				}
 			}
 		}
 		c.finish()
@@ -1540,7 +1704,7 @@ func TestVerifC11(t *testing.T) {
 	rng := newRng(vSeed())
 	lg := newVlog(t, "C11.log")
 	rep := newReport("C11")
-	nRandom, steps, depth, nReal, rounds := 40, 220, 2, 3, 1
+	nRandom, steps, depth, nReal, rounds := 200, 220, 3, 4, 2
 	if vThorough() {
 		nRandom, steps, depth, nReal, rounds = 1200, 400, 4, 40, 6
 	}
